@@ -1,5 +1,6 @@
 import Tickit.Proof.WinExpose
 import Tickit.Proof.WinFlush
+import Tickit.Gen.Win
 import Tickit.Proof.WinDamage
 import Tickit.Props.C02
 /-
@@ -402,5 +403,17 @@ def scroll_step_full : Prop :=
     (∀ w l c, content' w l c =
       if w = win ∧ rect.memb l c = true ∧ 0 ≤ l ∧ 0 ≤ c then content w (l + d) (c + r) else content w l c) →
     InvQ content' st'
+
+/-! ### facts regenerated from the C source on every run -/
+
+/-- `HierarchyChangeType` has the seven kinds the model's `WinTree.Change` mirrors, in this order. -/
+theorem gen_hierarchy_kinds :
+    Gen.Win.hierarchyKinds = ["INSERT_FIRST", "INSERT_LAST", "REMOVE", "RAISE", "RAISE_FRONT", "LOWER", "LOWER_BACK"] := by
+  decide
+
+/-- `TickitRect outside[N]` in `_scrollrectset` holds everything `tickit_rect_subtract` can return. -/
+theorem scroll_outside_fits (a b : Rect) (ha : a.Nonempty) (hb : b.Nonempty) :
+    (Rect.subtract a b).length ≤ Gen.Win.outsideCap :=
+  Nat.le_trans (Props.C06.subtract_spec a b ha hb).1 (by decide)
 
 end Tickit.Props.C01
